@@ -59,7 +59,10 @@ def random_spec(rng):
     k = str(rng.choice(["white", "red", "alpha", "alpha", "pink"]))
     fs = float(rng.choice([1.0, 10.0, 100.0, 2048.0]))
     fmin = fs * float(rng.choice([1e-3, 1e-2, 0.05]))
-    spec = {"gen": k, "fs": fs, "seed": int(rng.integers(0, 2 ** 31)),
+    seed = int(rng.integers(0, 2 ** 31))
+    if rng.random() < 0.15:
+        seed = int(rng.choice([0, 0, 1, 2 ** 31 - 1, 2 ** 32 - 1, 2 ** 32, 2 ** 63 - 1]))   # boundary seeds
+    spec = {"gen": k, "fs": fs, "seed": seed,
             "psd": float(10 ** rng.uniform(-2, 2)), "fmin": fmin,
             "fmax": fs * float(rng.choice([0.5, 0.25, 0.1])),
             "alpha": float(rng.choice([0.01, 0.5, 1.0, 1.3, 2.0])),
